@@ -243,6 +243,7 @@ def build(spec: dict):
     lay = Extents(size)
     partial = {int(k): v for k, v in (spec.get("partial") or {}).items()}
     end = max(meta_off + MB, bat_off + bat_len, 5 * KB64)
+    stale = []  # (file offset, key): old bytes in space that a no-longer-present block still names; never guest-visible
     for block, state, fmb in spec["blocks"]:
         idx = bat_index(block, chunk_ratio)
         table[idx] = (state & 7) | ((fmb & ((1 << 44) - 1)) << 20)
@@ -262,6 +263,8 @@ def build(spec: dict):
                     lay.put(block * bs + a, Pat(k, b - a, base=a))
         elif state in (PB_UNDEFINED, PB_ZERO, PB_UNMAPPED):
             lay.put(block * bs, Zero(ln))
+            if fmb and fmb < (1 << 24):
+                stale.append((fmb * MB, k ^ 0x57A1E))
         elif state == PB_NOT_PRESENT and not spec.get("has_parent"):
             pass  # hole == zeros in a non-differencing model
     for chunk, fmb in spec.get("sb", []):
@@ -281,4 +284,7 @@ def build(spec: dict):
         "header_seq": max(s1, s2), "header_write_guid": (w1, w2)[cur], "locator": dict(spec.get("locator", [])),
         "metadata_bytes": 5 * KB64 + MB + nentries * 8, "chunk_ratio": chunk_ratio, "bat_entries": nentries,
     }
+    for off, k in stale:
+        if off >= 5 * KB64 and fh.free(off, bs):
+            fh.put(off, Pat(k, bs))
     return fh, lay, meta
